@@ -907,6 +907,7 @@ package pipeline
 
 //@ func (*stream).tryUnblock
 //@   option allow-exit yes
+//@   requires s == nil || !held(s.streamer.blockedMu)
 //@   ghost aged bool = false
 //@   ghost nsig int = 0
 //@   ghost blk bool = false
